@@ -110,6 +110,7 @@ type Path struct {
 	relevant     map[*Var]bool
 	pending      map[*Var][]*Term
 	finalChecked bool
+	harnessRel   string // package directory of the harness relative to /repo
 	schedBudget  int // deviations from the default schedule explored (vSchedules)
 	nTable       int // branch conditions decided by domain tables (no solver call)
 	pureChecked  int
